@@ -79,50 +79,71 @@ def check_index_bounds(ctx, m, rule='C15.R9', tail=''):
     """A positional index taken from the request is bounded on both sides before it selects an instance."""
     ctx.rule(rule, 'wherever the engine tests a positional index against the length of a collection (`i < len(xs)`) and then selects with it (xs[i], xs.pop(i), del xs[i]), the index is bounded from below as well (`0 <= i < len(xs)`, or a dominating `i >= 0`): a negative index from the request would otherwise address an instance counted from the end - DeleteAttribute would remove an instance nobody addressed - or make the selection raise IndexError, which is answered with General Failure' + tail)
     n = 0
-    for name, fn in sorted(m.methods.items()):
-        g = None
-        for iff in [x for x in walk_local(fn) if isinstance(x, ast.If)]:
-            for cmpn in [c for c in ast.walk(iff.test) if isinstance(c, ast.Compare)]:
-                operands = [cmpn.left] + list(cmpn.comparators)
-                for k, op in enumerate(cmpn.ops):
-                    a, b = operands[k], operands[k + 1]
-                    idx = None
-                    if isinstance(op, ast.Lt) and isinstance(b, ast.Call) and call_name(b) == 'len' and not isinstance(a, ast.Constant):
-                        idx = a
-                    elif isinstance(op, ast.Gt) and isinstance(a, ast.Call) and call_name(a) == 'len' and not isinstance(b, ast.Constant):
-                        idx = b
-                    if idx is None:
-                        continue
-                    it = U(idx)
-                    selects = [x for st in iff.body for x in ast.walk(st)
-                               if (isinstance(x, ast.Subscript) and not isinstance(x.slice, ast.Slice) and U(x.slice) == it)
-                               or (isinstance(x, ast.Call) and isinstance(x.func, ast.Attribute) and x.func.attr in ('pop', 'insert') and x.args and U(x.args[0]) == it)
-                               or (isinstance(x, ast.Call) and is_self_attr(x.func) and any(U(a_) == it for a_ in x.args))]        # handed to a helper that selects with it
-                    if not selects:
-                        continue
-                    n += 1
 
-                    def lower(c_):
-                        ops_ = [c_.left] + list(c_.comparators)
-                        for j, o in enumerate(c_.ops):
-                            x_, y_ = ops_[j], ops_[j + 1]
-                            if isinstance(o, (ast.LtE, ast.Lt)) and isinstance(x_, ast.Constant) and isinstance(x_.value, int) and U(y_) == it and (x_.value >= 0 if isinstance(o, ast.LtE) else x_.value >= -1):
-                                return True
-                            if isinstance(o, (ast.GtE, ast.Gt)) and isinstance(y_, ast.Constant) and isinstance(y_.value, int) and U(x_) == it and (y_.value >= 0 if isinstance(o, ast.GtE) else y_.value >= -1):
-                                return True
-                        return False
-                    ok = any(lower(c_) for c_ in ast.walk(iff.test) if isinstance(c_, ast.Compare))
-                    if not ok:
-                        if g is None:
-                            g = CFG(fn)
-                        tn = [x for x in g.nodes if x.kind == 'test' and (x.stmt is iff.test or any(y is cmpn for y in ast.walk(x.stmt)))]
-                        for t0 in tn[:1]:
-                            for tt, lab in dominating_edges(g, t0):
-                                for c_ in [c for c in ast.walk(tt.stmt) if isinstance(c, ast.Compare)]:
-                                    if lab == 'T' and lower(c_):
-                                        ok = True
-                    ctx.check(ok, rule, 'KmipEngine.%s|%s bounded below' % (name, it), m.site(cmpn, fn), '%s is tested against 0 and against the length before it selects' % it,
-                              'the index %s is only tested against the length (%s) before it selects an instance: a negative index counts from the end (another instance than the one addressed), and one below -len raises IndexError (General Failure)' % (it, U(cmpn)))
+    def bounds_in(test, it, positive):
+        """(upper, lower): does `test` (taken on its true edge when positive, else on its false edge) bound the expression text `it` by a len() from above / by 0 from below"""
+        if isinstance(test, ast.UnaryOp) and isinstance(test.op, ast.Not):
+            return bounds_in(test.operand, it, not positive)
+        if isinstance(test, ast.BoolOp):
+            if isinstance(test.op, ast.And) == positive:       # every conjunct holds on the true edge of `and`; every disjunct fails on the false edge of `or`
+                rs = [bounds_in(v, it, positive) for v in test.values]
+                return any(r[0] for r in rs), any(r[1] for r in rs)
+            return False, False
+        if not isinstance(test, ast.Compare):
+            return False, False
+        NEG = {ast.Lt: ast.GtE, ast.LtE: ast.Gt, ast.Gt: ast.LtE, ast.GtE: ast.Lt}
+        if not positive and len(test.ops) != 1:
+            return False, False
+        up = lo = False
+        ops_ = [test.left] + list(test.comparators)
+        for j, o in enumerate(test.ops):
+            x_, y_ = ops_[j], ops_[j + 1]
+            ot = type(o) if positive else NEG.get(type(o))
+            if ot is None:
+                continue
+            if ot is ast.Lt and U(x_) == it and isinstance(y_, ast.Call) and call_name(y_) == 'len':
+                up = True
+            if ot is ast.Gt and U(y_) == it and isinstance(x_, ast.Call) and call_name(x_) == 'len':
+                up = True
+            if ot in (ast.LtE, ast.Lt) and isinstance(x_, ast.Constant) and isinstance(x_.value, int) and U(y_) == it and (x_.value >= 0 if ot is ast.LtE else x_.value >= -1):
+                lo = True
+            if ot in (ast.GtE, ast.Gt) and isinstance(y_, ast.Constant) and isinstance(y_.value, int) and U(x_) == it and (y_.value >= 0 if ot is ast.GtE else y_.value >= -1):
+                lo = True
+        return up, lo
+    for name, fn in sorted(m.methods.items()):
+        sels = []
+        for x in walk_local(fn):
+            if isinstance(x, ast.Subscript) and not isinstance(x.slice, ast.Slice) and not isinstance(x.slice, ast.Constant):
+                sels.append((x, x.slice))
+            elif isinstance(x, ast.Call) and isinstance(x.func, ast.Attribute) and x.func.attr in ('pop', 'insert') and x.args and not isinstance(x.args[0], ast.Constant) and not x.keywords:
+                sels.append((x, x.args[0]))
+            elif isinstance(x, ast.Call) and is_self_attr(x.func):
+                for a_ in x.args:
+                    if isinstance(a_, ast.Name):
+                        sels.append((x, a_))            # handed to a helper that may select with it
+        if not sels:
+            continue
+        g = CFG(fn)
+        from ..dataflow import node_of_expr
+        done = set()
+        for x, idx in sels:
+            it = U(idx)
+            nd = node_of_expr(g, x)
+            if nd is None:
+                continue
+            up_test = None
+            lower = False
+            for tt, lab in dominating_edges(g, nd):
+                u_, l_ = bounds_in(tt.stmt, it, lab == 'T')
+                if u_ and up_test is None:
+                    up_test = tt
+                lower = lower or l_
+            if up_test is None or (id(up_test), it) in done:
+                continue            # not a length-bounded selection
+            done.add((id(up_test), it))
+            n += 1
+            ctx.check(lower, rule, 'KmipEngine.%s|%s bounded below' % (name, it), m.site(up_test.stmt, fn), '%s is tested against 0 and against the length before it selects' % it,
+                      'the index %s is only tested against the length (%s) before it selects an instance: a negative index counts from the end (another instance than the one addressed), and one below -len raises IndexError (General Failure)' % (it, U(up_test.stmt)))
     ctx.count('length_bounded_index_selections', n, 3)
 
 def run(ctx):
